@@ -52,13 +52,17 @@ func fixOriginFuncToTrampoline(origin uintptr, trampoline uintptr, jumpInstSize 
 		return 0, err
 	}
 
-	if len(fixedData) < len(fixOriginData) {
+	if fixedDataSize < len(fixOriginData) {
 		// 追加跳转到原函数指令到修复后指令的末尾
 		// append jump back to origin func position where next to the broken instructions
 		jumpBackData := jmpToOriginFunctionValue(
 			trampoline+uintptr(len(fixedData)),
 			origin+(uintptr(fixedDataSize)))
 		fixOriginData = append(fixedData, jumpBackData...)
+	} else {
+		// 整个函数都被拷贝: 写入的必须是修复后的指令, 而不是原始拷贝
+		// the whole function was copied: write the relocated code, not the raw copy
+		fixOriginData = fixedData
 	}
 
 	// get trampoline func size
